@@ -5,6 +5,8 @@ import json, os, shutil, subprocess, sys, tempfile
 from concurrent.futures import ProcessPoolExecutor
 
 PROPS = [f"C{i:02d}" for i in range(1, 21)]
+if os.environ.get("SA_PROPS"):      # development aid: only these checks (the MATRIX/SILENCE files then cover only them)
+    PROPS = [p for p in PROPS if p in os.environ["SA_PROPS"].split(",")]
 
 def one(args):
     seed_id, patch = args
